@@ -3,6 +3,7 @@
 package cl
 
 import (
+	"math"
 	"math/big"
 
 	"github.com/ohler55/slip"
@@ -22,4 +23,43 @@ func syncFloatPrec(v0, v1 *slip.LongFloat) {
 		(*big.Float)(v1).SetPrec(p0)
 		_, _, _ = (*big.Float)(v1).Parse(s, 10)
 	}
+}
+
+// addFixnums returns the sum of x and y as a fixnum or, if the sum does not
+// fit in a fixnum, as a bignum.
+func addFixnums(x, y slip.Fixnum) slip.Object {
+	sum := x + y
+	if (x < sum) != (0 < y) { // overflow
+		return (*slip.Bignum)(new(big.Int).Add(big.NewInt(int64(x)), big.NewInt(int64(y))))
+	}
+	return sum
+}
+
+// subFixnums returns the difference of x and y as a fixnum or, if the
+// difference does not fit in a fixnum, as a bignum.
+func subFixnums(x, y slip.Fixnum) slip.Object {
+	dif := x - y
+	if (dif < x) != (0 < y) { // overflow
+		return (*slip.Bignum)(new(big.Int).Sub(big.NewInt(int64(x)), big.NewInt(int64(y))))
+	}
+	return dif
+}
+
+// mulFixnums returns the product of x and y as a fixnum or, if the product
+// does not fit in a fixnum, as a bignum.
+func mulFixnums(x, y slip.Fixnum) slip.Object {
+	product := x * y
+	if x != 0 && (product/x != y || (x == -1 && y == math.MinInt64)) { // overflow
+		return (*slip.Bignum)(new(big.Int).Mul(big.NewInt(int64(x)), big.NewInt(int64(y))))
+	}
+	return product
+}
+
+// negFixnum returns the negation of x as a fixnum or, for the most negative
+// fixnum, as a bignum.
+func negFixnum(x slip.Fixnum) slip.Object {
+	if x == math.MinInt64 {
+		return (*slip.Bignum)(new(big.Int).Neg(big.NewInt(int64(x))))
+	}
+	return -x
 }
